@@ -16,6 +16,8 @@
    called (masses * lam, s * lam^2, exact rationals); s3 and kib are logged divided by lam^2 / lam^8
    (both functions are homogeneous) and the indicator is scale invariant, so every clause is judged
    on the integer point: an absolute tolerance or threshold in the implementation shows up here.
+   Symbolic family: "sym" = k > 0: the functions were called with the conventional symbols sigma1..3, m0..3 with the
+   particles in the k-th role assignment, unfolded and only then given their values; "sym" = 0: called with the values.
    Values: rationals <<num, den>> (den > 0; out-of-range values are clamped by the driver to
    +/-(2^31-1)/1 and can then only fail a comparison); indicator / outside values <<t, num, den>>
    with t = 0 rational, 1 NaN, 2 anything else.
@@ -36,7 +38,7 @@ RatIs(v, n) == v[2] > 0 /\ v[1] = n * v[2]
 Clamped(v) == Abs(v[1]) >= 2147483647            \* "no value / out of range": equal to nothing, never multiplied
 
 Counters == {"ev", "ev_boundary", "ev_massless", "ev_equalmass", "box", "box_inside", "box_outside",
-             "box_on_boundary", "box_s1_zero", "ov_nan", "ov_rational", "kal", "kaf", "scaled"}
+             "box_on_boundary", "box_s1_zero", "ov_nan", "ov_rational", "kal", "kaf", "scaled", "symbolic"}
 Bump(c, names) == [n \in Counters |-> IF n \in names THEN c[n] + 1 ELSE c[n]]
 
 \* ---- physical events ---------------------------------------------------------------------
@@ -55,7 +57,8 @@ EvStep ==
                       \cup (IF M[2] = 0 \/ M[3] = 0 \/ M[4] = 0 THEN {"ev_massless"} ELSE {})
                       \cup (IF M[2] = M[3] \/ M[3] = M[4] \/ M[2] = M[4] THEN {"ev_equalmass"} ELSE {})
                       \cup (IF Rec.ov[1] = 1 THEN {"ov_nan"} ELSE {"ov_rational"})
-                      \cup (IF Rec.sc # <<1, 1>> THEN {"scaled"} ELSE {}))
+                      \cup (IF Rec.sc # <<1, 1>> THEN {"scaled"} ELSE {})
+                      \cup (IF Rec.sym # 0 THEN {"symbolic"} ELSE {}))
 
 \* ---- bounding-box points -------------------------------------------------------------------
 BoxStep ==
@@ -74,7 +77,8 @@ BoxStep ==
   /\ cnt' = Bump(cnt, {"box"} \cup (IF s1 = 0 THEN {"box_s1_zero"} ELSE IF inside THEN {"box_inside"} ELSE {"box_outside"})
                       \cup (IF s1 > 0 /\ PdgDisc(s1, s2, M) = 0 THEN {"box_on_boundary"} ELSE {})
                       \cup (IF Rec.ov[1] = 1 THEN {"ov_nan"} ELSE {"ov_rational"})
-                      \cup (IF Rec.sc # <<1, 1>> THEN {"scaled"} ELSE {}))
+                      \cup (IF Rec.sc # <<1, 1>> THEN {"scaled"} ELSE {})
+                      \cup (IF Rec.sym # 0 THEN {"symbolic"} ELSE {}))
 
 \* ---- Kallen ---------------------------------------------------------------------------------
 KalStep ==
